@@ -1,6 +1,7 @@
 package main
 
 import (
+	"sort"
 	"fmt"
 	"go/token"
 	"go/types"
@@ -211,30 +212,73 @@ func describeByte(fn *ssa.Function, p CPath, v ssa.Value) string {
 
 // transcriptOf extracts, per path, the sequence of hash inputs; returns the
 // set of distinct transcripts (role arms normalised) and a shape verdict.
-func transcriptOf(fn *ssa.Function) (seqs map[string]bool, shape string) {
+//
+// What is hashed is decided on bit provenance (engine E2): the hash input is an
+// append-only byte stream and every Write contributes its bytes, each with the
+// message field bits it carries — whichever helpers, buffers or encodings the
+// code uses to get them there. That the whole digest is taken after the last
+// write, the hash is reset and the digest returned is decided on the paths of
+// the flattened view.
+func transcriptOf(c *Ctx, fn *ssa.Function) (seqs map[string]bool, shape string) {
 	seqs = map[string]bool{}
 	h := fn.Params[0]
-	if hasLoop(fn) {
-		return seqs, "loop"
+	// the requested privilege level occupies four bits on the wire (IPMI defines levels 0–5)
+	evs, why := extractEvents(c, fn, map[string]int{"m1.MaxPrivilegeLevel": 4})
+	if why != "" {
+		return seqs, why
 	}
-	var roleKinds = map[string]bool{}
-	enumPaths(fn, 1, 1024, func(p CPath) {
-		idx := pathIndex(p)
+	roleKinds := map[string]bool{}
+	for _, le := range evs {
+		var items []string
+		for _, ev := range le.Events {
+			if ev.Kind == "hash" {
+				items = append(items, ev.Val)
+			}
+		}
 		var parts []string
+		for i := 0; i < len(items); i++ {
+			it := items[i]
+			// four consecutive bytes of one 32-bit field, least significant first
+			if strings.HasSuffix(it, "[7:0]") && i+3 < len(items) {
+				base := strings.TrimSuffix(it, "[7:0]")
+				if items[i+1] == base+"[15:8]" && items[i+2] == base+"[23:16]" && items[i+3] == base+"[31:24]" {
+					parts = append(parts, "le32("+strings.TrimPrefix(base, "f:")+")")
+					i += 3
+					continue
+				}
+			}
+			lookup, decided := le.Bools["m1.PrivilegeLevelLookup"]
+			switch {
+			case it == "f:m1.MaxPrivilegeLevel[3:0]" && decided && lookup:
+				roleKinds["role(level,lookup)"] = true
+				parts = append(parts, "role")
+			case it == "{0b1,f:m1.MaxPrivilegeLevel[3:0]}" && decided && !lookup:
+				roleKinds["role(level,name-only|0x10)"] = true
+				parts = append(parts, "role")
+			case strings.HasPrefix(it, "copy(f:") && strings.HasSuffix(it, "[0:16])"):
+				parts = append(parts, strings.TrimSuffix(strings.TrimPrefix(it, "copy(f:"), "[0:16])"))
+			case it == "lin(wrap8(len(f:m1.Username)))" || it == "lin(len(f:m1.Username))":
+				parts = append(parts, "len8(m1.Username)")
+			case it == "copy(f:m1.Username)":
+				parts = append(parts, "bytes(m1.Username)")
+			default:
+				parts = append(parts, "?"+it)
+			}
+		}
+		seqs[strings.Join(parts, ",")] = true
+	}
+	complete := enumPaths(fn, 1, 4096, func(p CPath) {
+		idx := pathIndex(p)
 		var sum, reset *ssa.Call
+		lastWrite := -1
 		for _, in := range p.Instrs() {
 			call, ok := in.(*ssa.Call)
-			if !ok || !call.Call.IsInvoke() || call.Call.Value != ssa.Value(h) {
+			if !ok || !call.Call.IsInvoke() || p.Resolve(call.Call.Value) != ssa.Value(h) {
 				continue
 			}
 			switch call.Call.Method.Name() {
 			case "Write":
-				d := describeHashArg(fn, p, idx, idx[call], call.Call.Args[0])
-				if strings.HasPrefix(d, "role(") {
-					roleKinds[d] = true
-					d = "role"
-				}
-				parts = append(parts, d)
+				lastWrite = idx[call]
 			case "Sum":
 				if isNilConst(call.Call.Args[0]) && sum == nil {
 					sum = call
@@ -243,18 +287,21 @@ func transcriptOf(fn *ssa.Function) (seqs map[string]bool, shape string) {
 				}
 			case "Reset":
 				reset = call
+			case "Size", "BlockSize":
 			default:
 				shape = "unexpected hash method " + call.Call.Method.Name()
 			}
 		}
-		seqs[strings.Join(parts, ",")] = true
 		ret, _ := p.Last().(*ssa.Return)
-		if sum == nil || reset == nil || idx[sum] > idx[reset] {
-			shape = "missing Sum(nil) followed by Reset"
-		} else if ret == nil || p.Resolve(ret.Results[0]) != ssa.Value(sum) {
+		if sum == nil || reset == nil || idx[sum] > idx[reset] || idx[sum] < lastWrite {
+			shape = "missing Sum(nil) after the last write, followed by Reset"
+		} else if ret == nil || ret.Parent() != fn || p.Resolve(ret.Results[0]) != ssa.Value(sum) {
 			shape = "does not return the whole Sum(nil)"
 		}
 	})
+	if !complete {
+		shape = "too many paths"
+	}
 	usesRole := false
 	for s := range seqs {
 		if strings.Contains(s, "role") {
@@ -275,8 +322,8 @@ var specTranscripts = map[string]string{
 }
 
 // classifyTranscript returns which specification transcript fn computes ("" if none).
-func classifyTranscript(fn *ssa.Function) (kind string, got string, shape string) {
-	seqs, shape := transcriptOf(fn)
+func classifyTranscript(c *Ctx, fn *ssa.Function) (kind string, got string, shape string) {
+	seqs, shape := transcriptOf(c, fn)
 	if len(seqs) != 1 {
 		var all []string
 		for s := range seqs {
@@ -306,7 +353,7 @@ func checkC01(c *Ctx, r *Report) {
 	for _, fn := range c.transcriptFuncs() {
 		name := c.FnName(fn)
 		r.Fn(name)
-		kind, got, shape := classifyTranscript(fn)
+		kind, got, shape := classifyTranscript(c, fn)
 		switch {
 		case kind == "":
 			r.Bad(name+"|transcript", fn.Pos(), "hash input sequence ["+got+"] matches none of the specified RAKP2/RAKP3/SIK/RAKP4 transcripts"+ifs(shape != "", "; "+shape))
@@ -340,6 +387,15 @@ func checkC01(c *Ctx, r *Report) {
 
 	// ---- (4) driver order
 	checkDriverOrder(c, r, found)
+}
+
+func keysOf2(m map[[2]string]bool) [][2]string {
+	var out [][2]string
+	for k := range m {
+		out = append(out, k)
+	}
+	sort.Slice(out, func(i, j int) bool { return out[i][0]+out[i][1] < out[j][0]+out[j][1] })
+	return out
 }
 
 func ifs(b bool, s string) string {
@@ -455,52 +511,61 @@ func checkKeyWiring(c *Ctx, r *Report, tr map[string]*ssa.Function) {
 	r.Check(key2 != nil && optField(key2, "Password") && c3.Call.Args[0] == c2.Call.Args[0], name+"|authcode key", c2.Pos(), "RAKP2/RAKP3 AuthCode HMAC keyed by opts.Password", "the RAKP2/RAKP3 AuthCode HMAC is not keyed by the caller's password")
 	// SIK hash key: phi(opts.KG, opts.Password) selected by len(KG)==0
 	_, keyS := hashFrom(cs.Call.Args[0])
-	okS := false
-	whyS := "SIK HMAC key is not KG-or-password"
-	if ph, ok := keyS.(*ssa.Phi); ok && len(ph.Edges) == 2 {
-		var kgEdge, pwEdge = -1, -1
-		for i, e := range ph.Edges {
-			if optField(e, "KG") {
-				kgEdge = i
+	// decided per feasible success path of the flattened view: the key resolves to opts.KG on
+	// paths where len(opts.KG) was found non-zero and to opts.Password where it was found zero
+	okS := true
+	whyS := ""
+	nS := 0
+	optFieldOn := func(p CPath, v ssa.Value) string {
+		ld, ok := p.Resolve(v).(*ssa.UnOp)
+		if !ok || ld.Op != token.MUL {
+			return ""
+		}
+		a := p.AP(ld.X)
+		if a.Root != ssa.Value(m.Opts) {
+			return ""
+		}
+		return a.SelString()
+	}
+	completeS := m.successPaths(func(p CPath) {
+		nS++
+		which := optFieldOn(p, keyS)
+		if which != "KG" && which != "Password" {
+			okS, whyS = false, "SIK HMAC key is not KG-or-password"
+			return
+		}
+		// the KG-length test on this path
+		empty, tested := false, false
+		for _, tk := range p.Ifs() {
+			op, x, y, neg, isBin := condOf(tk.If.Cond)
+			if !isBin {
+				continue
 			}
-			if optField(e, "Password") {
-				pwEdge = i
+			call, isCall := p.Resolve(x).(*ssa.Call)
+			k, isK := constInt(y)
+			if !isCall || !isK || k != 0 {
+				continue
+			}
+			if b, ok := call.Call.Value.(*ssa.Builtin); !ok || b.Name() != "len" || optFieldOn(p, call.Call.Args[0]) != "KG" {
+				continue
+			}
+			arm := tk.Arm != neg
+			switch op {
+			case token.EQL:
+				empty, tested = arm, true
+			case token.NEQ, token.GTR:
+				empty, tested = !arm, true
 			}
 		}
-		if kgEdge >= 0 && pwEdge >= 0 {
-			// the password edge must come from the arm where len(KG) == 0
-			pwPred := ph.Block().Preds[pwEdge]
-			kgPred := ph.Block().Preds[kgEdge]
-			for _, ifi := range ifsOf(m.Fn) {
-				op, x, y, neg, isBin := condOf(ifi.Cond)
-				if !isBin {
-					continue
-				}
-				call, isCall := x.(*ssa.Call)
-				k, isK := constInt(y)
-				if !isCall || !isK || k != 0 {
-					continue
-				}
-				if b, ok := call.Call.Value.(*ssa.Builtin); !ok || b.Name() != "len" || !optField(call.Call.Args[0], "KG") {
-					continue
-				}
-				emptyArm := ifi.Block().Succs[0]
-				otherArm := ifi.Block().Succs[1]
-				if (op == token.NEQ || op == token.GTR) != neg {
-					emptyArm, otherArm = otherArm, emptyArm
-				} else if op != token.EQL && op != token.NEQ && op != token.GTR {
-					continue
-				}
-				// password assigned on the empty arm: pwPred is the empty arm block (or dominated by it), kgPred is the If block or the other arm
-				if (pwPred == emptyArm) && (kgPred == ifi.Block() || kgPred == otherArm) {
-					okS = true
-				} else {
-					whyS = "password is used as the SIK key on the wrong arm of the KG-length test"
-				}
-			}
+		switch {
+		case !tested:
+			okS, whyS = false, "SIK HMAC key does not depend on whether KG is set"
+		case empty != (which == "Password"):
+			okS, whyS = false, "password is used as the SIK key on the wrong arm of the KG-length test"
 		}
-	} else if optField(keyS, "KG") || optField(keyS, "Password") {
-		whyS = "SIK HMAC key does not depend on whether KG is set"
+	})
+	if !completeS || nS == 0 {
+		okS, whyS = false, "could not enumerate the constructor's success paths"
 	}
 	r.Check(okS, name+"|SIK key", cs.Pos(), "SIK HMAC keyed by KG, or by the password exactly when len(KG)==0", whyS)
 	// ICV hash keyed by the SIK value
@@ -613,136 +678,205 @@ func checkAlgorithmTables(c *Ctx, r *Report) {
 	r.Fn(c.FnName(authFn))
 	r.Fn(c.FnName(integFn))
 	r.Fn(c.FnName(ciphFn))
+	// The three tables are read per feasible path of the flattened view: which constant the
+	// algorithm parameter compared equal with on the path, and what the returned object's
+	// fields hold at the return — literal, field assignments and helper constructors alike.
 	// authentication: 1→(sha1.New,12) 2→(md5.New,0) 3→(sha256.New,16)
 	wantAuth := map[int64][2]string{1: {"crypto/sha1.New", "12"}, 2: {"crypto/md5.New", "0"}, 3: {"crypto/sha256.New", "16"}}
-	arms := switchArms(authFn)
-	for k, w := range wantAuth {
-		ret := arms[k]
+	gotAuth := map[int64]map[[2]string]bool{}
+	refusedOK := true
+	var refusedPos token.Pos
+	completeA := enumPaths(authFn, 1, 8192, func(p CPath) {
+		ret, isRet := p.Last().(*ssa.Return)
+		if !isRet || ret.Parent() != authFn {
+			return
+		}
+		k, has := p.caseOf(authFn.Params[0])
+		r0 := p.Resolve(ret.Results[0])
+		usable := !isNilConst(r0) && isNilConst(p.Resolve(ret.Results[1]))
+		if _, listed := wantAuth[k]; !has || !listed {
+			if usable {
+				refusedOK, refusedPos = false, ret.Pos()
+			}
+			return
+		}
 		got := [2]string{"?", "0"}
-		if ret != nil {
-			if al, ok := ret.Results[0].(*ssa.Alloc); ok {
-				f, _, _ := complitFieldsAlloc(al)
-				if v, ok := f["hashGen"]; ok {
-					if fnv, ok := stripConv(v).(*ssa.Function); ok {
-						got[0] = fnv.String()
-					}
-				}
-				if v, ok := f["icvLength"]; ok {
-					if n, isN := constInt(v); isN {
-						got[1] = fmt.Sprint(n)
-					}
-				}
+		f := p.objFields(p.objOf(r0))
+		if v, ok := f["hashGen"]; ok {
+			if fnv, ok := stripConv(v).(*ssa.Function); ok {
+				got[0] = fnv.String()
 			}
 		}
-		r.Check(got == w, c.FnName(authFn)+fmt.Sprintf("|algorithm %d", k), authFn.Pos(), fmt.Sprintf("%v", got), fmt.Sprintf("authentication algorithm %d maps to %v, specification says %v", k, got, w))
+		if v, ok := f["icvLength"]; ok {
+			if n, isN := constInt(v); isN {
+				got[1] = fmt.Sprint(n)
+			} else {
+				got[1] = "?"
+			}
+		}
+		if !usable {
+			got = [2]string{"refused", ""}
+		}
+		if gotAuth[k] == nil {
+			gotAuth[k] = map[[2]string]bool{}
+		}
+		gotAuth[k][got] = true
+	})
+	if !completeA {
+		r.Unk(c.FnName(authFn)+"|paths", authFn.Pos(), "too many paths")
+	}
+	for k, w := range wantAuth {
+		ok := len(gotAuth[k]) == 1 && gotAuth[k][w]
+		r.Check(ok, c.FnName(authFn)+fmt.Sprintf("|algorithm %d", k), authFn.Pos(), fmt.Sprintf("%v", w), fmt.Sprintf("authentication algorithm %d maps to %v, specification says %v", k, keysOf2(gotAuth[k]), w))
 	}
 	// any other constant must not return a usable generator
-	for k, ret := range arms {
-		if _, ok := wantAuth[k]; !ok {
-			r.Check(isNilConst(ret.Results[0]) || !isNilConst(ret.Results[1]), c.FnName(authFn)+fmt.Sprintf("|algorithm %d", k), ret.Pos(), "refused", "an authentication algorithm outside the specification table yields a generator")
-		}
-	}
+	r.Check(refusedOK, c.FnName(authFn)+"|other algorithms", refusedPos, "refused", "an authentication algorithm outside the specification table yields a generator")
 	// ICV(): truncation applied iff icvLength != 0; K/SIK/AuthCode = hmac.New(hashGen, key)
+	var paramsT *types.Named
+	if pt, ok := authFn.Signature.Results().At(0).Type().(*types.Pointer); ok {
+		paramsT, _ = pt.Elem().(*types.Named)
+	}
 	for _, mn := range []string{"AuthCode", "SIK", "K"} {
 		okm := false
-		if al, ok := arms[1].Results[0].(*ssa.Alloc); ok {
-			if n, ok := al.Type().(*types.Pointer).Elem().(*types.Named); ok {
-				if mf := c.MethodOf(n, mn); mf != nil && mf.Blocks != nil {
-					r.Fn(c.FnName(mf))
-					allInstrs(mf, false, func(in ssa.Instruction) {
-						if call, ok := in.(*ssa.Call); ok && calleeName(&call.Call) == "crypto/hmac.New" {
-							if ld, ok := call.Call.Args[0].(*ssa.UnOp); ok && apOf(ld.X).SelString() == "hashGen" && call.Call.Args[1] == ssa.Value(mf.Params[1]) {
-								okm = true
-							}
+		if paramsT != nil {
+			if mf := c.MethodOf(paramsT, mn); mf != nil && mf.Blocks != nil {
+				r.Fn(c.FnName(mf))
+				allInstrs(mf, false, func(in ssa.Instruction) {
+					if call, ok := in.(*ssa.Call); ok && calleeName(&call.Call) == "crypto/hmac.New" {
+						if ld, ok := call.Call.Args[0].(*ssa.UnOp); ok && apOf(ld.X).SelString() == "hashGen" && viewVal(mf, call.Call.Args[1]) == ssa.Value(mf.Params[1]) {
+							okm = true
 						}
-					})
-				}
+					}
+				})
 			}
 		}
 		r.Check(okm, "authenticationAlgorithmParams."+mn+"|hmac.New(hashGen,key)", authFn.Pos(), "HMAC over the algorithm's hash keyed by the argument", "method "+mn+" does not return hmac.New(hashGen, key)")
 	}
 	// integrity: 1→(sha1,12) 2→(md5,full) 4→(sha256,16); hash keyed by g.K(1)
 	wantInt := map[int64][2]string{1: {"crypto/sha1.New", "12"}, 2: {"crypto/md5.New", "full"}, 4: {"crypto/sha256.New", "16"}}
-	iarms := switchArms(integFn)
 	gparam := integFn.Params[1]
-	for k, w := range wantInt {
+	gotInt := map[int64]map[[2]string]bool{}
+	keyOKs := map[int64]bool{}
+	completeI := enumPaths(integFn, 1, 8192, func(p CPath) {
+		ret, isRet := p.Last().(*ssa.Return)
+		if !isRet || ret.Parent() != integFn {
+			return
+		}
+		k, has := p.caseOf(integFn.Params[0])
+		if _, listed := wantInt[k]; !has || !listed {
+			return
+		}
 		got := [2]string{"?", "?"}
 		keyOK := false
-		if ret := iarms[k]; ret != nil {
-			v := stripConv(ret.Results[0])
-			var hm ssa.Value
-			if call, ok := v.(*ssa.Call); ok {
-				hm = call
-				got[1] = "full"
-			} else {
-				var f map[string]ssa.Value
-				if al, ok := v.(*ssa.Alloc); ok {
-					f, _, _ = complitFieldsAlloc(al)
-				} else if ff, _, ok := complitFields(v); ok {
-					f = ff
-				}
-				if f != nil {
-					hm = stripConv(f["Hash"])
-					if n, isN := constInt(f["length"]); isN {
-						got[1] = fmt.Sprint(n)
-					}
-				}
+		v := p.Resolve(ret.Results[0])
+		for {
+			if mi, ok := v.(*ssa.MakeInterface); ok {
+				v = p.Resolve(mi.X)
+				continue
 			}
-			if call, ok := hm.(*ssa.Call); ok && calleeName(&call.Call) == "crypto/hmac.New" {
-				if fnv, ok := stripConv(call.Call.Args[0]).(*ssa.Function); ok {
-					got[0] = fnv.String()
+			if ct, ok := v.(*ssa.ChangeInterface); ok {
+				v = p.Resolve(ct.X)
+				continue
+			}
+			break
+		}
+		var hm ssa.Value
+		if call, ok := v.(*ssa.Call); ok {
+			hm = call
+			got[1] = "full"
+		} else if obj := p.objOf(v); obj != nil {
+			f := p.objFields(obj)
+			hm = f["Hash"]
+			for {
+				if mi, ok := hm.(*ssa.MakeInterface); ok {
+					hm = p.Resolve(mi.X)
+					continue
 				}
-				if kc, ok := call.Call.Args[1].(*ssa.Call); ok && kc.Call.IsInvoke() && kc.Call.Value == ssa.Value(gparam) && kc.Call.Method.Name() == "K" {
-					if n, isN := constInt(kc.Call.Args[0]); isN && n == 1 {
-						keyOK = true
-					}
+				if ct, ok := hm.(*ssa.ChangeInterface); ok {
+					hm = p.Resolve(ct.X)
+					continue
+				}
+				break
+			}
+			if n, isN := constInt(f["length"]); isN {
+				got[1] = fmt.Sprint(n)
+			}
+		}
+		if call, ok := hm.(*ssa.Call); ok && calleeName(&call.Call) == "crypto/hmac.New" {
+			if fnv, ok := stripConv(call.Call.Args[0]).(*ssa.Function); ok {
+				got[0] = fnv.String()
+			}
+			if kc, ok := p.Resolve(call.Call.Args[1]).(*ssa.Call); ok && kc.Call.IsInvoke() && p.Resolve(kc.Call.Value) == ssa.Value(gparam) && kc.Call.Method.Name() == "K" {
+				if n, isN := constInt(p.Resolve(kc.Call.Args[0])); isN && n == 1 {
+					keyOK = true
 				}
 			}
 		}
-		r.Check(got == w && keyOK, c.FnName(integFn)+fmt.Sprintf("|algorithm %d", k), integFn.Pos(), fmt.Sprintf("%v keyed by K(1)", got), fmt.Sprintf("integrity algorithm %d maps to %v (keyed by K(1): %v), specification says %v keyed by K1", k, got, keyOK, w))
+		if gotInt[k] == nil {
+			gotInt[k] = map[[2]string]bool{}
+			keyOKs[k] = true
+		}
+		gotInt[k][got] = true
+		keyOKs[k] = keyOKs[k] && keyOK
+	})
+	if !completeI {
+		r.Unk(c.FnName(integFn)+"|paths", integFn.Pos(), "too many paths")
+	}
+	for k, w := range wantInt {
+		ok := len(gotInt[k]) == 1 && gotInt[k][w] && keyOKs[k]
+		r.Check(ok, c.FnName(integFn)+fmt.Sprintf("|algorithm %d", k), integFn.Pos(), fmt.Sprintf("%v keyed by K(1)", w), fmt.Sprintf("integrity algorithm %d maps to %v (keyed by K(1): %v), specification says %v keyed by K1", k, keysOf2(gotInt[k]), keyOKs[k], w))
 	}
 	// confidentiality: 1 → AES-128-CBC keyed by first 16 bytes of K(2)
-	carms := switchArms(ciphFn)
-	okC := false
-	if ret := carms[1]; ret != nil {
-		for _, v := range possibleValues(ret.Results[0]) {
-			_ = v
+	okC, nC := true, 0
+	completeC := enumPaths(ciphFn, 1, 8192, func(p CPath) {
+		ret, isRet := p.Last().(*ssa.Return)
+		if !isRet || ret.Parent() != ciphFn {
+			return
 		}
-		// find in the arm: copy(key[:], g.K(2)) into a [16]byte, NewAES128CBC(key)
-		var k2 *ssa.Call
-		allInstrs(ciphFn, false, func(in ssa.Instruction) {
-			if call, ok := in.(*ssa.Call); ok && call.Call.IsInvoke() && call.Call.Method.Name() == "K" && call.Call.Value == ssa.Value(ciphFn.Params[1]) {
-				if n, isN := constInt(call.Call.Args[0]); isN && n == 2 {
-					k2 = call
-				}
+		if k, has := p.caseOf(ciphFn.Params[0]); !has || k != 1 {
+			return
+		}
+		nC++
+		// on this path: a [16]byte is filled by copy(key[:], g.K(2)) and handed to the AES layer constructor
+		good := false
+		ins := p.Instrs()
+		for _, in := range ins {
+			nc, ok := in.(*ssa.Call)
+			if !ok || nc.Call.StaticCallee() == nil || !strings.Contains(nc.Call.StaticCallee().Name(), "AES128CBC") || len(nc.Call.Args) != 1 {
+				continue
 			}
-		})
-		if k2 != nil {
-			for _, ref := range *k2.Referrers() {
-				if cp, ok := ref.(*ssa.Call); ok {
-					if b, ok := cp.Call.Value.(*ssa.Builtin); ok && b.Name() == "copy" && cp.Call.Args[1] == ssa.Value(k2) {
-						if sl, ok := cp.Call.Args[0].(*ssa.Slice); ok && sl.Low == nil && sl.High == nil {
-							if al, ok := sl.X.(*ssa.Alloc); ok {
-								if at, ok := al.Type().(*types.Pointer).Elem().(*types.Array); ok && at.Len() == 16 {
-									// the array is passed to the AES layer constructor
-									for _, r2 := range *al.Referrers() {
-										if ld, ok := r2.(*ssa.UnOp); ok && ld.Op == token.MUL {
-											for _, r3 := range *ld.Referrers() {
-												if nc, ok := r3.(*ssa.Call); ok && nc.Call.StaticCallee() != nil && strings.Contains(nc.Call.StaticCallee().Name(), "AES128CBC") {
-													okC = true
-												}
-											}
-										}
-									}
-								}
-							}
-						}
+			key := p.objOf(nc.Call.Args[0])
+			if key == nil {
+				continue
+			}
+			at, isArr := key.Type().(*types.Pointer).Elem().Underlying().(*types.Array)
+			if !isArr || at.Len() != 16 {
+				continue
+			}
+			for _, in2 := range ins {
+				cp, ok := in2.(*ssa.Call)
+				if !ok {
+					continue
+				}
+				if b, ok := cp.Call.Value.(*ssa.Builtin); !ok || b.Name() != "copy" {
+					continue
+				}
+				sl, ok := cp.Call.Args[0].(*ssa.Slice)
+				if !ok || sl.Low != nil || sl.High != nil || sl.X != ssa.Value(key) {
+					continue
+				}
+				if kc, ok := p.Resolve(cp.Call.Args[1]).(*ssa.Call); ok && kc.Call.IsInvoke() && kc.Call.Method.Name() == "K" && p.Resolve(kc.Call.Value) == ssa.Value(ciphFn.Params[1]) {
+					if n, isN := constInt(p.Resolve(kc.Call.Args[0])); isN && n == 2 {
+						good = true
 					}
 				}
 			}
 		}
-	}
-	r.Check(okC, c.FnName(ciphFn)+"|algorithm 1", ciphFn.Pos(), "AES-128-CBC keyed by the first 16 bytes of K(2)", "confidentiality algorithm 1 is not an AES-128-CBC layer keyed by the first 16 bytes of K(2)")
+		if !good {
+			okC = false
+		}
+	})
+	r.Check(completeC && okC && nC > 0, c.FnName(ciphFn)+"|algorithm 1", ciphFn.Pos(), "AES-128-CBC keyed by the first 16 bytes of K(2)", "confidentiality algorithm 1 is not an AES-128-CBC layer keyed by the first 16 bytes of K(2)")
 	// NewAES128CBC uses aes.NewCipher on the whole 16-byte key
 	if na := c.Func("pkg/ipmi", "NewAES128CBC"); na != nil {
 		r.Fn(c.FnName(na))
@@ -802,51 +936,87 @@ func checkAlgorithmTables(c *Ctx, r *Report) {
 		return
 	}
 	r.Fn(c.FnName(kf))
-	okLen, okFill, okHash := false, false, false
-	var buf ssa.Value
+	// structure: the digest helper (write all, Sum(nil), Reset, return the sum) is applied to the
+	// generator's own hash and its result is what K returns
+	okHash := false
+	var helperCall *ssa.Call
 	allInstrs(kf, false, func(in ssa.Instruction) {
-		switch x := in.(type) {
-		case *ssa.MakeSlice:
-			if n, isN := constInt(x.Len); isN && n == 20 {
-				okLen = true
-				buf = x
-			}
-		case *ssa.Slice:
-			if al, ok := x.X.(*ssa.Alloc); ok && x.Low == nil {
-				if at, ok := al.Type().(*types.Pointer).Elem().(*types.Array); ok && at.Len() == 20 {
-					if n, isN := constInt(x.High); x.High == nil || (isN && n == 20) {
-						okLen = true
-						buf = x
-					}
-				}
-			}
-		case *ssa.Store:
-			if ia, ok := x.Addr.(*ssa.IndexAddr); ok {
-				if cv, ok := x.Val.(*ssa.Convert); ok && cv.X == ssa.Value(kf.Params[1]) {
-					if _, isPhi := ia.Index.(*ssa.Phi); isPhi {
-						okFill = true
-					}
-				}
-			}
-		case *ssa.Call:
+		if x, ok := in.(*ssa.Call); ok && x.Parent() == kf {
 			if f := x.Call.StaticCallee(); f != nil && len(x.Call.Args) == 2 && hashHelperShape(f) == "" {
-				if ld, ok := x.Call.Args[0].(*ssa.UnOp); ok && strings.HasSuffix(apOf(ld.X).SelString(), "hash") && x.Call.Args[1] == buf {
-					okHash = true
+				if ld, ok := x.Call.Args[0].(*ssa.UnOp); ok && strings.HasSuffix(apOf(ld.X).SelString(), "hash") {
+					helperCall = x
 				}
 			}
 		}
 	})
-	// loop bound 20
-	okBound := false
-	for _, ifi := range ifsOf(kf) {
-		op, _, y, _, isBin := condOf(ifi.Cond)
-		if isBin && op == token.LSS {
-			if n, isN := constInt(y); isN && n == 20 {
-				okBound = true
+	if helperCall != nil {
+		okHash = true
+		for _, ret := range returnsOf(kf) {
+			if ret.Results[0] != ssa.Value(helperCall) {
+				okHash = false
 			}
 		}
 	}
-	r.Check(okLen && okFill && okHash && okBound, "additionalKeyMaterialGenerator.K|HMAC_SIK(20×byte(n))", kf.Pos(), "constant is 20 copies of byte(n), hashed whole with the SIK-keyed HMAC", fmt.Sprintf("K(n) is not the HMAC of 20 copies of byte(n): len20=%v fill=%v bound20=%v hash=%v", okLen, okFill, okBound, okHash))
+	// content: decided on bit provenance — the hash input is exactly 20 bytes, all written by
+	// one loop, each holding the low byte of n
+	okContent, nHashed, whyK := true, 0, ""
+	evs, why := extractEvents(c, kf, nil)
+	for _, le := range evs {
+		var hs []lfEvent
+		for _, ev := range le.Events {
+			if ev.Kind == "hash" {
+				hs = append(hs, ev)
+			}
+		}
+		if len(hs) == 0 {
+			continue // the nil-hash arm of the digest helper
+		}
+		nHashed++
+		if len(hs) != 1 || !strings.HasPrefix(hs[0].Name, "h[0:+20]") || !strings.HasPrefix(hs[0].Val, "copy(") || !strings.HasSuffix(hs[0].Val, "[0:20])") {
+			okContent, whyK = false, "the hash input is not one 20-byte buffer"
+			continue
+		}
+		org := strings.TrimSuffix(strings.TrimPrefix(hs[0].Val, "copy("), "[0:20])")
+		filled := false
+		last := "no loop fills the buffer"
+		for _, ev := range le.eventsOf("loop:wire", org) {
+			run, w := runOf(ev)
+			if w != "" {
+				last = w
+				continue
+			}
+			if !linEq(run.Idx0, linConst(0)) || run.VAdv != 0 || len(ev.Loop.Guard) != 1 {
+				last = "the fill does not start at byte 0 with one value for every byte"
+				continue
+			}
+			if cov, w := run.coversUpTo(linConst(20), le.Cons); !cov {
+				last = w
+				continue
+			}
+			// the value: the parameter n, narrowed to a byte
+			isN := false
+			if len(run.V0.T) == 1 && run.V0.C == 0 {
+				for sy, k := range run.V0.T {
+					pn, has := le.ParamSym[1]
+					if k == 1 && has && (sy == pn || le.SymName(sy) == "wrap8("+le.SymName(pn)+")") {
+						isN = true
+					}
+				}
+			}
+			if !isN {
+				last = "the bytes are not byte(n)"
+				continue
+			}
+			filled = true
+		}
+		if !filled {
+			okContent, whyK = false, last
+		}
+	}
+	if nHashed == 0 {
+		okContent, whyK = false, "no path feeds the hash: "+why
+	}
+	r.Check(okHash && okContent, "additionalKeyMaterialGenerator.K|HMAC_SIK(20×byte(n))", kf.Pos(), "constant is 20 copies of byte(n), hashed whole with the SIK-keyed HMAC", fmt.Sprintf("K(n) is not the HMAC of 20 copies of byte(n): digest-helper-on-own-hash=%v content=%v %s", okHash, okContent, whyK))
 }
 
 // ---------------------------------------------------------------- driver order
